@@ -1,4 +1,117 @@
-import Xp.Model.C01
+import Xp.Proofs.C01PT
+/-
+C01 — composed resources are never leaked or duplicated, whatever fails mid-reconcile.
+
+The model (Xp/Model/C01.lean) is `Reconciler.Reconcile` with the function composer or
+the P&T composer (named templates), call by call, over an abstract API server; a
+reconcile runs under an arbitrary fault plan (`Plan`: every call index × {ok, error,
+conflict, crash before, crash after}). `reach` is the list of all stores visible at
+any instant of that run. The invariant `Good` packs: object keys are unique and
+named, NoLeak, and "referenced objects have pairwise distinct composition resource
+names" (needed because both composers key their observations by that name).
+-/
 namespace Xp.C01
-theorem placeholder : True := trivial
+
+/-- what a reconcile is allowed to assume about its nondeterministic inputs -/
+def ModeOK : Mode → Prop
+  | .fn out ch => OutOK out ∧ ChOK ch     -- the function output is a map with stable kinds (H1); names generated are non-empty; loop orders enumerate their map
+  | .pt tmpl fresh => TmplOK tmpl fresh   -- template names are distinct; names generated are non-empty
+
+theorem safe_reconcile {s : St} (hg : Good s) (m : Mode) (hm : ModeOK m) : Safe sem Good (reconcile m) s := by
+  cases m with
+  | fn out ch => exact safe_reconcile_fn hg out ch hm.1 hm.2
+  | pt tmpl fresh => exact safe_reconcile_pt hg tmpl fresh hm
+
+/-- **At every instant** of a reconcile — after any prefix of its API calls, under any
+fault plan (error, conflict, crash before / after the call took effect at any call
+index), for every function output / template list, every generated name and every map
+iteration order — the invariant holds. -/
+theorem invariant_every_instant (s : St) (hg : Good s) (m : Mode) (hm : ModeOK m) (plan : Plan) :
+    ∀ s' ∈ reach sem plan 0 (reconcile m) s, Good s' :=
+  reach_safe sem Good plan 0 (reconcile m) s hg (safe_reconcile hg m hm)
+
+/-- NoLeak, spelled out: every live composed resource controlled by the XR is listed in
+spec.resourceRefs at every instant, including right after a crash or failed call. -/
+theorem noLeak_every_instant (s : St) (hg : Good s) (m : Mode) (hm : ModeOK m) (plan : Plan) :
+    ∀ s' ∈ reach sem plan 0 (reconcile m) s, ∀ o ∈ s'.objs,
+      o.ctrl = .xr → o.deleting = false → (⟨o.kind, o.name⟩ : Ref) ∈ s'.refs := by
+  intro s' hs' o ho hc hd
+  exact (invariant_every_instant s hg m hm plan s' hs').noLeak o ho hc hd
+
+/-- At most one live composed resource per desired resource name, at every instant. -/
+theorem at_most_one_per_name_every_instant (s : St) (hg : Good s) (m : Mode) (hm : ModeOK m) (plan : Plan) :
+    ∀ s' ∈ reach sem plan 0 (reconcile m) s, ∀ o1 ∈ s'.objs, ∀ o2 ∈ s'.objs,
+      o1.ctrl = .xr → o1.deleting = false → o2.ctrl = .xr → o2.deleting = false →
+      o1.annot = o2.annot → o1.annot ≠ "" → o1 = o2 := by
+  intro s' hs' o1 h1 o2 h2 c1 d1 c2 d2 ha hne
+  have hg' := invariant_every_instant s hg m hm plan s' hs'
+  exact hg'.obsUniq o1 h1 o2 h2 (hg'.noLeak o1 h1 c1 d1) (hg'.noLeak o2 h2 c2 d2) ha hne
+
+/-- No API call ever renames an object: whatever is in the store after a call is either
+an object that was there before under the same kind/name, or a newly created one. -/
+theorem objects_never_renamed (s : St) (r : Req) :
+    ∀ o' ∈ (exec s r).1.objs, (∃ o ∈ s.objs, key o = key o') ∨ findObj s.objs o'.kind o'.name = none := by
+  intro o' ho'
+  by_cases h : ∃ o ∈ s.objs, key o = key o'
+  · exact Or.inl h
+  · right
+    cases hf : findObj s.objs o'.kind o'.name with
+    | none => rfl
+    | some o =>
+      obtain ⟨hm, hk, hn⟩ := findObj_some hf
+      exact absurd ⟨o, hm, by simp [key, hk, hn]⟩ h
+
+/-- The same for every finite history of faulty reconciles (each with its own plan,
+function output, names and orders), with controller-local state lost in between
+(restart / requeue): the invariant holds at every instant of the whole history. -/
+theorem invariant_every_history (h : List (Plan × Mode)) (hok : ∀ pm ∈ h, ModeOK pm.2) (s : St) (hg : Good s) :
+    ∀ s' ∈ reachHistory sem (h.map fun pm => (pm.1, reconcile pm.2)) s, Good s' := by
+  induction h generalizing s with
+  | nil => intro s' hs'; simp [reachHistory] at hs'; subst hs'; exact hg
+  | cons pm rest ih =>
+    intro s' hs'
+    simp only [List.map_cons, reachHistory, List.mem_append] at hs'
+    have hm := hok pm (List.mem_cons_self ..)
+    rcases hs' with hs' | hs'
+    · exact invariant_every_instant s hg pm.2 hm pm.1 s' hs'
+    · apply ih (fun x hx => hok x (List.mem_cons_of_mem _ hx)) _ _ s' hs'
+      exact invariant_every_instant s hg pm.2 hm pm.1 _ (run_mem_reach sem pm.1 0 (reconcile pm.2) s)
+
+/-! ### non-vacuity: the hypotheses are met by non-trivial states and inputs -/
+
+/-- an XR with one live composed resource `xr-abc` for name "a", one terminating for "b" -/
+def exampleStore : St :=
+  { xrFin := true, xrRv := 7,
+    refs := [⟨"KA", "xr-abc"⟩, ⟨"KB", "xr-def"⟩],
+    objs := [⟨"KA", "xr-abc", "a", .xr, false, false, 1, true⟩, ⟨"KB", "xr-def", "b", .xr, true, true, 0, true⟩] }
+
+example : Good exampleStore := by
+  refine ⟨by decide, by decide, by decide, ?_⟩
+  intro o1 h1 o2 h2 _ _ ha _
+  simp only [exampleStore, List.mem_cons, List.mem_nil_iff, or_false] at h1 h2
+  rcases h1 with rfl | rfl <;> rcases h2 with rfl | rfl <;> first | rfl | (simp at ha)
+
+/-- a pipeline that desires "a" (kept) and a new "c", drops "b" -/
+def exampleOut : Obs → FnOut := fun _ => .desired [⟨"a", "KA", 2, true⟩, ⟨"c", "KA", 0, false⟩]
+
+example : ModeOK (.fn (fun obs => if (obsLookup obs "a").all (·.kind = "KA") ∧ (obsLookup obs "c").all (·.kind = "KA")
+    then exampleOut obs else .failed) ⟨["xr-new"], id, id⟩) := by
+  refine ⟨⟨?_, ?_⟩, ⟨by decide, fun _ _ => Iff.rfl, fun _ _ => Iff.rfl⟩⟩
+  · intro obs ds h
+    split at h
+    · simp only [exampleOut, FnOut.desired.injEq] at h; subst h; decide
+    · cases h
+  · intro obs ds h d hd o hl
+    split at h
+    · rename_i hc
+      simp only [exampleOut, FnOut.desired.injEq] at h; subst h
+      simp only [List.mem_cons, List.mem_nil_iff, or_false] at hd
+      rcases hd with rfl | rfl
+      · have := hc.1; simp [hl] at this; exact this
+      · have := hc.2; simp [hl] at this; exact this
+    · cases h
+
+example : ModeOK (.pt [⟨"a", "KA", 2, true⟩, ⟨"c", "KA", 0, false⟩] ["xr-new"]) :=
+  ⟨by decide, by decide⟩
+
 end Xp.C01
